@@ -36,7 +36,7 @@ props["C11"] = {
     "rule": "each case is the raw logos token stream of one text (a repository source, a repository source with a lexical irregularity - stray terminator, unknown character, unterminated opener, malformed literal - spliced at a token gap, or a random lexeme soup); the real Lexer's emitted set and the real LexicalTokens view are compared with the Lean model, and every accepted text's root span is compared with the end of its last token outside comments. Non-trivial = distinct raw streams containing a comment bracket or an unknown token.",
     "explanation": "Kernel-checked: the mirror of `impl Iterator for Lexer` hands the parser exactly the program tokens outside comments, in order (lexer_complete, lexer_ordered, stray_close_reaches_parser), and the tooling lexer agrees with it (lexers_agree), for every raw stream. Tied to lexer.rs by running both real lexers on every case. The step from 'every token was handed over' to 'every token is in the parsed term' is the trusted LALRPOP fact that an Ok parse consumed its whole iterator, additionally observed through the root span on every accepted text.",
     "trusted_base": [KERNEL, AXIOMS, HARNESS,
-                     "trusted, not modelled: logos' regex classification of characters into raw tokens (an input of the model); LALRPOP returns Ok only after consuming every token its iterator yields",
+                     "trusted, not modelled: logos' regex classification of characters into raw tokens (an input of the model, taken from the repository's own token definitions - a change to those definitions changes the model's input with it; for the comment delimiters this is covered independently by block comments closed by the documented rules, written out in the harness, after which text must still be program text); LALRPOP returns Ok only after consuming every token its iterator yields",
                      "modelled, not verified: lang/surface/src/textual/lexer.rs `impl Iterator for Lexer` and `LexicalTokens` are mirrored by ZV/Model/Lexer.lean and compared on every run"],
     "assumptions": ["logos yields no Err item for this token set (catch-all rule); the model has the arm anyway and the harness counts Err items (input_distribution.raw_err_items)"],
 }
